@@ -21,6 +21,7 @@ type c15Case struct {
 	StalePlcy   int   `json:"stale_plcy"`    // stale, unreferenced GLX-PLCY chains
 	StalePodRef bool  `json:"stale_pod_ref"` // a stale GLX-POD chain (pod long gone) still jumping to a stale GLX-PLCY chain
 	NoHooks     bool  `json:"no_hooks,omitempty"` // the hook chains GLX-INGRESS / GLX-EGRESS exist beforehand but nothing jumps to them (a crash between -N and -I)
+	Ahead       bool  `json:"ahead,omitempty"` // events mode: the listers already show state B when the first handler runs (handlers lag behind the caches)
 	Events      bool  `json:"events"`        // deliver the A->B difference through the event handlers before the full sync
 }
 
@@ -95,6 +96,7 @@ func genC15() *rapid.Generator[c15Case] {
 		c.StalePodRef = rapid.IntRange(0, 5).Draw(t, "stalePodRef") == 0
 		c.Events = rapid.Bool().Draw(t, "events")
 		c.NoHooks = !c.StalePodRef && rapid.IntRange(0, 3).Draw(t, "noHooks") == 0
+		c.Ahead = c.Events && rapid.IntRange(0, 2).Draw(t, "ahead") == 0
 		return c
 	})
 }
@@ -260,11 +262,25 @@ func checkC15(c c15Case, r *vcore.Rec) *vcore.Failure {
 			}
 		}
 		cur := c.A
+		aheadWant := ""
+		if c.Ahead {
+			// every handler of a policy event runs a full synchronisation: with the caches at B already, the state right after such
+			// a handler must be the one derived from B
+			setsA := nf.NewIPSet()
+			refA := NewSim(nf.NewIPTables(setsA), setsA)
+			refA.Load(c.B)
+			refA.PM.Run()
+			aheadWant = refA.OwnState()
+			r.Class("listers_ahead_of_handlers")
+		}
 		for _, oi := range order {
 			e := evs[oi]
 			// the informer updates its store before the handler runs
 			cur = applyEvent(cur, e)
 			s.Load(cur)
+			if c.Ahead {
+				s.Load(c.B)
+			}
 			switch e.kind {
 			case "podUpsert":
 				old := e.pod
@@ -287,6 +303,12 @@ func checkC15(c c15Case, r *vcore.Rec) *vcore.Failure {
 			}
 			if f := frame("event " + e.kind); f != nil {
 				return f
+			}
+			if c.Ahead && strings.HasPrefix(e.kind, "pol") && c.StaleSets+c.StalePlcy == 0 && !c.StalePodRef && !c.NoHooks && c.Foreign >= 0 {
+				if got := s.OwnState(); got != aheadWant {
+					return vcore.Failf("c15:convergence:after_policy_event", "the full synchronisation inside the handler of %s %s (caches already at B) "+
+						"does not leave the state derived from B:\n--- got\n%s--- from empty\n%s", e.kind, e.pol.Name, got, aheadWant)
+				}
 			}
 		}
 	}
